@@ -1311,10 +1311,14 @@ br_ssl_engine_recvrec_ack(br_ssl_engine_context *cc, size_t len)
 			 * (HelloRequest, ClientHello) starts a new
 			 * handshake; application data accepted so far but
 			 * not yet flushed must leave first, in a record of
-			 * its own type.
+			 * its own type. The maximum fragment length asked
+			 * for by the client in the previous handshake is
+			 * forgotten: the server acknowledges what the new
+			 * ClientHello asks for, not an older request.
 			 */
 			if (cc->application_data == 1) {
 				sendpld_flush(cc, 0);
+				cc->peer_log_max_frag_len = 0;
 			}
 			/* Fall through */
 		case BR_SSL_CHANGE_CIPHER_SPEC:
@@ -1399,10 +1403,13 @@ br_ssl_engine_renegotiate(br_ssl_engine_context *cc)
 
 	/*
 	 * Application data accepted so far must be sent before the
-	 * handshake messages, in a record of its own type.
+	 * handshake messages, in a record of its own type. A new
+	 * handshake begins: the maximum fragment length request of the
+	 * previous ClientHello is not to be acknowledged again.
 	 */
 	if (cc->application_data == 1) {
 		sendpld_flush(cc, 0);
+		cc->peer_log_max_frag_len = 0;
 	}
 	jump_handshake(cc, 2);
 	return 1;
